@@ -495,14 +495,15 @@ func checkEnvelopeInner(c envCase, r *h.Rec) error {
 	for _, n := range c.Recips {
 		who := id(n)
 		// the recipient's certificate with another private key of the same type:
-		// SM2 decryption is authenticated (C3) -> error; RSA PKCS#1 v1.5 key
-		// transport may, with small probability, unpad to a garbage key
+		// SM2 decryption is authenticated (C3) and RSA PKCS#1 v1.5 unwrapping with a
+		// stranger's key fails (an accidental valid padding that also yields a key of
+		// the cipher's size has probability below 1e-8 per attempt) -> error
 		excl := map[string]bool{n: true}
 		if n == "sm2-1-noski" {
 			excl["sm2-1"] = true // the same key
 		}
 		for _, o := range outsiders(who.kind, excl, 2) {
-			if err := never("certificate of "+n+" with the private key of "+o, who.cert, id(o).key, who.kind == "sm2"); err != nil {
+			if err := never("certificate of "+n+" with the private key of "+o, who.cert, id(o).key, true); err != nil {
 				return err
 			}
 			r.Label("negative:recipient-cert-wrong-%s-key", who.kind)
